@@ -77,6 +77,10 @@ type Schema struct {
 	Top    []*SNode
 	// augmenting module (optional): nodes with Module != "" are emitted there as augments
 	AugName string
+	// submodule (optional): the top-level nodes named in SubNodes are written in submodule SubName, which the main module includes;
+	// in data they are the main module's like any other
+	SubName  string
+	SubNodes map[string]bool
 	Mod     *meta.Module
 	Extra   string // extra module-level text (features, identities...)
 }
@@ -334,7 +338,11 @@ func (s *Schema) Yang() string {
 	}
 	defer func() { identBasePrefix = "" }()
 	var b strings.Builder
-	fmt.Fprintf(&b, "module %s {\n  namespace %s;\n  prefix %s;\n  revision 2020-01-01;\n", s.Name, yq(s.NS), s.Prefix)
+	fmt.Fprintf(&b, "module %s {\n  namespace %s;\n  prefix %s;\n", s.Name, yq(s.NS), s.Prefix)
+	if s.SubName != "" {
+		fmt.Fprintf(&b, "  include %s;\n", s.SubName)
+	}
+	b.WriteString("  revision 2020-01-01;\n")
 	if s.needsIdent() {
 		b.WriteString("  identity base-id;\n")
 		ids := map[string]bool{}
@@ -372,6 +380,26 @@ func (s *Schema) Yang() string {
 		b.WriteString("  }\n")
 	} else {
 		for _, t := range s.Top {
+			if s.SubName != "" && s.SubNodes[t.Name] {
+				continue
+			}
+			t.yang(&b, "  ", "")
+		}
+	}
+	b.WriteString("}\n")
+	return b.String()
+}
+
+// SubYang renders the submodule, or "" when the schema has none.
+func (s *Schema) SubYang() string {
+	if s.SubName == "" {
+		return ""
+	}
+	s.link()
+	var b strings.Builder
+	fmt.Fprintf(&b, "submodule %s {\n  belongs-to %s { prefix %s; }\n", s.SubName, s.Name, s.Prefix)
+	for _, t := range s.Top {
+		if s.SubNodes[t.Name] {
 			t.yang(&b, "  ", "")
 		}
 	}
@@ -412,7 +440,19 @@ func (s *Schema) Compile() error {
 	main := s.Yang()
 	var m *meta.Module
 	var err error
-	if s.AugName == "" {
+	if s.AugName == "" && s.SubName != "" {
+		sub := s.SubYang()
+		opener := func(name string, ext string) (io.Reader, error) {
+			switch name {
+			case s.Name:
+				return strings.NewReader(main), nil
+			case s.SubName:
+				return strings.NewReader(sub), nil
+			}
+			return nil, nil
+		}
+		m, err = parser.LoadModule(source.Opener(opener), s.Name)
+	} else if s.AugName == "" {
 		m, err = parser.LoadModuleFromString(nil, main)
 	} else {
 		aug := s.AugYang()
@@ -429,9 +469,17 @@ func (s *Schema) Compile() error {
 		m, err = parser.LoadModule(source.Opener(opener), s.AugName)
 	}
 	if err != nil {
-		return fmt.Errorf("schema does not compile: %w\n%s%s", err, main, s.AugYang())
+		return fmt.Errorf("schema does not compile: %w\n%s%s%s", err, main, s.AugYang(), s.SubYang())
 	}
 	s.Mod = m
+	if s.SubName != "" {
+		// where the nodes of a submodule stand among the module's own is the compiler's choice: follow it
+		pos := map[string]int{}
+		for i, d := range m.DataDefinitions() {
+			pos[d.Ident()] = i
+		}
+		sort.SliceStable(s.Top, func(i, j int) bool { return pos[s.Top[i].Name] < pos[s.Top[j].Name] })
+	}
 	return s.bind()
 }
 
@@ -504,6 +552,8 @@ type GenOpts struct {
 	Types        []string // allowed leaf base types
 	KeyTypes     []string
 	Aug          bool // contribute some nodes from an augmenting module
+	Sub          bool // write some top-level nodes in a submodule (not together with Aug)
+	Prefix       string // prefix of the main module ("" = its name, m)
 	Presence     bool
 	Wraps        bool // write some leaf types through a typedef, as a union member or as a leafref to a sibling
 	NoUnionWrap  bool // ... but not as a union member (stores whose leaves have one Go type)
@@ -583,7 +633,11 @@ func (g *gen) leaf(scope map[string]bool, allowed []string) *SNode {
 						n.DefaultText = &t
 					}
 				case "identityref":
-					t := "m:" + d
+					pfx := g.o.Prefix
+					if pfx == "" {
+						pfx = "m"
+					}
+					t := pfx + ":" + d
 					n.DefaultText = &t
 				}
 			}
@@ -766,6 +820,9 @@ func (g *gen) choice(depth int, scope map[string]bool, nest int) *SNode {
 func GenSchema(r *rand.Rand, o GenOpts) *Schema {
 	g := &gen{r: r, o: o}
 	s := &Schema{Name: "m", Prefix: "m", NS: "urn:m"}
+	if o.Prefix != "" {
+		s.Prefix = o.Prefix
+	}
 	scope := map[string]bool{}
 	s.Top = g.children(1, scope, false)
 	if o.Aug {
@@ -814,6 +871,40 @@ func GenSchema(r *rand.Rand, o GenOpts) *Schema {
 		})
 		if !any {
 			s.AugName = ""
+		}
+	}
+	if o.Sub && s.AugName == "" && len(s.Top) > 1 {
+		// nodes that name nothing of the main module (typedefs, identities, sibling leaves) may be written in the submodule
+		var stay, move []*SNode
+		for _, t := range s.Top {
+			free := t.Kind != Leaf && t.Kind != LeafList || t.Type.Wrap != "leafref"
+			var rec func(n *SNode)
+			rec = func(n *SNode) {
+				if n.Type != nil && (n.Type.Wrap == "typedef" || n.Type.Base == "identityref") {
+					free = false
+				}
+				for _, c := range n.Children {
+					rec(c)
+				}
+			}
+			rec(t)
+			// a sibling some leafref points at stays with the leafref
+			for _, o := range s.Top {
+				if o.Type != nil && o.Type.Wrap == "leafref" && o.Type.WrapTarget == t.Name {
+					free = false
+				}
+			}
+			if free && r.Intn(2) == 0 {
+				move = append(move, t)
+			} else {
+				stay = append(stay, t)
+			}
+		}
+		if len(move) > 0 && len(stay) > 0 {
+			s.SubName, s.SubNodes = "ms", map[string]bool{}
+			for _, t := range move {
+				s.SubNodes[t.Name] = true
+			}
 		}
 	}
 	s.link()
